@@ -1,15 +1,18 @@
 //! Checks that need the pocketscion simulator (topologies, segment registry, routing logic).
 use vmon::{Args, Mon};
 
+mod c01;
+mod c13;
+mod common;
+
 fn main() {
     let args = Args::parse();
-    let mon = Mon::new();
+    let mut mon = Mon::new();
     let (rule, assumptions): (String, Vec<&'static str>) = match args.prop.as_str() {
+        "C01" => c01::run(&args, &mut mon),
+        "C13" => c13::run(&args, &mut mon),
         other => panic!("chk-net does not implement {other}"),
     };
-    #[allow(unreachable_code)]
-    {
-        let code = mon.finish(&args, &rule, &assumptions);
-        std::process::exit(code);
-    }
+    let code = mon.finish(&args, &rule, &assumptions);
+    std::process::exit(code);
 }
